@@ -43,7 +43,7 @@ fn lib_full() -> Vec<Spec> {
     v
 }
 
-fn lib_576() -> Vec<Spec> {
+pub fn lib_576() -> Vec<Spec> {
     let mut v = Vec::new();
     for life in LIFE_ALL {
         for rx in [RxAge::Fresh, RxAge::AtTimeout] {
@@ -76,7 +76,7 @@ fn archetypes() -> Vec<Spec> {
     ]
 }
 
-fn lib_arch(lives: &[Life]) -> Vec<Spec> {
+pub fn lib_arch(lives: &[Life]) -> Vec<Spec> {
     let mut v = Vec::new();
     for life in lives {
         for a in archetypes() {
@@ -86,7 +86,9 @@ fn lib_arch(lives: &[Life]) -> Vec<Spec> {
     v
 }
 
-struct Acc {
+pub struct Acc {
+    /// judge C04's selector clause (the returned link is eligible) instead of C03's
+    c04: bool,
     calls: AtomicU64,
     with_usable: AtomicU64,
     none_results: AtomicU64,
@@ -127,6 +129,47 @@ fn one_call(
         .collect();
     local.push(hash_of(&(&usable, &gates, r, mode.is_classic(), guard)));
     let bad_index = r.is_some_and(|i| i >= v.len());
+    if acc.c04 {
+        // C04, selector clause: whatever it returns is registered, not timed out, not stall-gated
+        if let Some(i) = r.filter(|i| *i < v.len()) {
+            let why = if matches!(v[i].phase, srtla_core::connection::LinkPhase::Registering) {
+                Some("selector-returned-registering-link")
+            } else if oracle_timed_out(&links[i], NOW, timeout) {
+                Some("selector-returned-timed-out-link")
+            } else if v[i].is_stall_gated() {
+                Some("selector-returned-stall-gated-link")
+            } else {
+                None
+            };
+            if let Some(key) = why {
+                let msg = format!(
+                    "select_connection_idx returned link {i}, which is not eligible; mode={mode:?} quality={quality} guard={guard} thresholds={th:?} timeout={timeout} last={last:?}; links: {}",
+                    specs.iter().map(|s| describe(s)).collect::<Vec<_>>().join(" | ")
+                );
+                *acc.fail_n.lock().unwrap().entry(key.to_string()).or_insert(0) += 1;
+                let mut f = acc.fails.lock().unwrap();
+                if f.iter().filter(|x| x.key == key).count() < 3 {
+                    f.push(Violation {
+                        key: key.to_string(),
+                        message: msg,
+                        replay: json!({
+                            "exploration": "selector-product",
+                            "specs": specs.iter().map(|s| spec_to_json(s)).collect::<Vec<_>>(),
+                            "mode": if mode.is_classic() { "classic" } else { "enhanced" },
+                            "quality": quality, "guard": guard,
+                            "min_in_flight": th.min_in_flight, "ceiling_ms": th.ceiling_ms.to_string(),
+                            "timeout": timeout, "last": last,
+                        }),
+                    });
+                }
+            }
+        }
+        if local.len() > 8192 {
+            let mut d = acc.distinct.lock().unwrap();
+            d.extend(local.drain(..));
+        }
+        return;
+    }
     if (any_usable && r.is_none()) || bad_index {
         // classify: which kind of link let the guards exclude the usable one
         let disconnected_schedulable_other = v.iter().enumerate().any(|(i, l)| {
@@ -217,7 +260,7 @@ fn lasts(n: usize) -> Vec<Option<usize>> {
     v
 }
 
-fn sweep(acc: &Acc, n: usize, lib: &[Spec], quick: bool) -> u64 {
+pub fn sweep(acc: &Acc, n: usize, lib: &[Spec], quick: bool) -> u64 {
     let ths: Vec<Thresholds> = THRESHOLDS.to_vec();
     let tos: Vec<u64> = if quick { vec![5000, 1000] } else { TIMEOUTS.to_vec() };
     let inner = inner_configs(quick);
@@ -283,6 +326,7 @@ fn sweep(acc: &Acc, n: usize, lib: &[Spec], quick: bool) -> u64 {
 pub fn run(tier: Tier) -> Report {
     let mut rep = Report::new();
     let acc = Acc {
+        c04: false,
         calls: AtomicU64::new(0),
         with_usable: AtomicU64::new(0),
         none_results: AtomicU64::new(0),
@@ -378,6 +422,75 @@ pub fn replay(v: &Value) -> Result<(), String> {
     }
     if r.is_some_and(|i| i >= links.len()) {
         return Err(format!("index {r:?} out of range"));
+    }
+    Ok(())
+}
+
+/// C04's selector clause over the same products (used by c04.rs).
+pub fn selector_eligibility_product(quick: bool) -> (u64, u64, Vec<Violation>, std::collections::BTreeMap<String, u64>, Vec<Value>) {
+    let acc = Acc {
+        c04: true,
+        calls: AtomicU64::new(0),
+        with_usable: AtomicU64::new(0),
+        none_results: AtomicU64::new(0),
+        distinct: Mutex::new(Default::default()),
+        fails: Mutex::new(Vec::new()),
+        fail_n: Mutex::new(Default::default()),
+    };
+    let l576 = lib_576();
+    let l288: Vec<Spec> = l576
+        .iter()
+        .copied()
+        .filter(|s| matches!(s.life, Life::Live | Life::Warming | Life::LiveDisconnected | Life::RegisteringAfterReset))
+        .collect();
+    let l40 = lib_arch(&[Life::Live, Life::Warming, Life::LiveDisconnected, Life::RegisteringAfterReset, Life::NeverEstablishedInGrace]);
+    let l24 = lib_arch(&[Life::Live, Life::LiveDisconnected, Life::RegisteringAfterReset]);
+    let mut sweeps = Vec::new();
+    let mut run = |n: usize, lib: &[Spec], name: &str| {
+        let t = std::time::Instant::now();
+        let before = acc.calls.load(Ordering::Relaxed);
+        sweep(&acc, n, lib, quick);
+        sweeps.push(json!({"links": n, "library": name, "per_link_states": lib.len(), "selector_calls": acc.calls.load(Ordering::Relaxed) - before, "wall_s": t.elapsed().as_secs_f64()}));
+    };
+    if quick {
+        run(2, &l288, "Lib288^2");
+        run(3, &l24, "Lib24^3");
+    } else {
+        run(2, &l576, "Lib576^2");
+        run(3, &l40, "Lib40^3");
+        run(4, &l24, "Lib24^4");
+    }
+    let calls = acc.calls.load(Ordering::Relaxed);
+    let distinct = acc.distinct.lock().unwrap().len() as u64;
+    let fails: Vec<Violation> = acc.fails.lock().unwrap().drain(..).collect();
+    let counts = acc.fail_n.lock().unwrap().clone();
+    (calls, distinct, fails, counts, sweeps)
+}
+
+pub fn replay_eligibility(v: &Value) -> Result<(), String> {
+    let specs: Vec<Spec> = v["specs"]
+        .as_array()
+        .ok_or("MACHINERY: no specs")?
+        .iter()
+        .map(|s| spec_from_json(s).ok_or("MACHINERY: bad spec"))
+        .collect::<Result<_, _>>()?;
+    let mode = if v["mode"] == "classic" { SchedulingMode::Classic } else { SchedulingMode::Enhanced };
+    let th = Thresholds {
+        min_in_flight: v["min_in_flight"].as_i64().unwrap_or(32) as i32,
+        ceiling_ms: v["ceiling_ms"].as_str().and_then(|s| s.parse().ok()).unwrap_or(3000),
+    };
+    let timeout = v["timeout"].as_u64().unwrap_or(5000);
+    let last = v["last"].as_u64().map(|x| x as usize);
+    crate::util::set_now(NOW);
+    let rtts = RttLib::new(NOW);
+    let pre: Vec<SrtlaConnection> = specs.iter().enumerate().map(|(i, s)| build(i, s, th, timeout, NOW, &rtts)).collect();
+    let mut links = pre.clone();
+    let c = cfg(mode, v["quality"].as_bool().unwrap_or(true), v["guard"].as_bool().unwrap_or(true), th, timeout);
+    let r = select_connection_idx(&mut links, last, NOW, &c);
+    if let Some(i) = r.filter(|i| *i < links.len()) {
+        if matches!(links[i].phase, srtla_core::connection::LinkPhase::Registering) || oracle_timed_out(&pre[i], NOW, timeout) || links[i].is_stall_gated() {
+            return Err(format!("select_connection_idx returned link {i}, which is registering / timed out / stall-gated"));
+        }
     }
     Ok(())
 }
